@@ -129,3 +129,7 @@ Definition run (ops : list op) : oset * list outcome := run_from os_new ops.
 (* encoding of outcomes for the correspondence harness *)
 Definition outcome_z (o : outcome) : Z * Z :=
   match o with ONone => (0, 0) | OVal x => (1, x) | OKeyError => (2, 0) end.
+
+(* __reversed__ as repaired (fixes/C30-orderedset-reversed.diff): start at end[1] (the LAST node) and
+   follow `prev` until the sentinel *)
+Definition os_reversed_fixed (s : oset) : list Z := rev s.
